@@ -2229,7 +2229,7 @@ class unyt_array(np.ndarray):
         res_units = self.units * getattr(b, "units", NULL_UNIT)
         out_view = None if out is None else np.asarray(out)
         ret = self.view(np.ndarray).dot(np.asarray(b), out=out_view) * res_units
-        if out is not None:
+        if isinstance(out, unyt_array):
             out.units = res_units
         return ret
 
